@@ -73,6 +73,8 @@ struct Ctx<'a> {
     plan: &'a Plan,
     bs: BrStep,
     panicked: bool,
+    /// Option flavour: a failing value has no payload
+    opt: bool,
 }
 impl<'a> Ctx<'a> {
     fn fl(&self, id: u16) -> u8 {
@@ -166,7 +168,7 @@ fn run_chain(acts: &'static [Act], mut cur: Option<Mv>, cx: &mut Ctx) -> Option<
                     if !cx.call(a.id, c.h.clone()) {
                         return Some(c);
                     }
-                    let mut c = c.push(a.id);
+                    let mut c = if cx.opt { Mv { ok: true, h: vec![a.id] } } else { c.push(a.id) };
                     c.ok = !fail;
                     c
                 } else {
@@ -233,6 +235,43 @@ fn run_chain(acts: &'static [Act], mut cur: Option<Mv>, cx: &mut Ctx) -> Option<
                 // closure sees &value; inner is a single ThenR (returns ())
                 let _ = run_chain(a.inner, Some(c.clone()), cx);
                 cur = Some(c);
+            }
+            Op::Filter | Op::ThenB => {
+                cx.eval(a);
+                let c = cur.take().unwrap();
+                cur = Some(if c.ok {
+                    if !cx.call(a.id, c.h.clone()) {
+                        return Some(c);
+                    }
+                    let mut c = c;
+                    c.ok = !fail;
+                    c
+                } else {
+                    c
+                });
+            }
+            Op::WFilter => {
+                let c = cur.take().unwrap();
+                cur = Some(if c.ok {
+                    // the closure sees &value and yields bool (inner = one ThenB)
+                    match run_chain(a.inner, Some(c.clone()), cx) {
+                        Some(r) => {
+                            let mut c = c;
+                            c.ok = r.ok;
+                            c
+                        }
+                        None => return None,
+                    }
+                } else {
+                    c
+                });
+            }
+        }
+        if cx.opt {
+            if let Some(c) = cur.as_mut() {
+                if !c.ok {
+                    c.h.clear();
+                }
             }
         }
     }
@@ -317,7 +356,7 @@ pub fn run(prog: &Prog, kind: Kind, hk: Option<HK>, plan: &Plan) -> Exp {
         // (c) chains
         let mut panicked_here = false;
         for (ai, b) in active.iter().enumerate() {
-            let mut cx = Ctx { plan, bs: std::mem::take(&mut brs[ai]), panicked: false };
+            let mut cx = Ctx { plan, bs: std::mem::take(&mut brs[ai]), panicked: false, opt: prog.opt };
             let end = run_chain(prog.branches[*b].steps[k], vals[*b].take(), &mut cx);
             cx.bs.end = end.clone();
             if cx.panicked {
@@ -417,7 +456,7 @@ pub fn run(prog: &Prog, kind: Kind, hk: Option<HK>, plan: &Plan) -> Exp {
                 let mut hh = vec![h.id];
                 hh.extend(enc);
                 let failing = k == HK::AndThen && fl(h.id) & FAIL != 0;
-                exp.outs.push(if failing { Out::Err(Box::new(Out::F(hh))) } else { Out::Ok(Box::new(Out::V(hh))) });
+                exp.outs.push(if failing { Out::Err(Box::new(Out::F(if prog.opt { Vec::new() } else { hh }))) } else { Out::Ok(Box::new(Out::V(hh))) });
             }
         }
     } else {
